@@ -13,6 +13,7 @@ pub struct X {
     nonzero_word_to_bit: u64,
     nonzero_bit_to_word: u64,
     sets_tried: u64,
+    bulk: u64,
     popcounts: Vec<u64>,
 }
 
@@ -245,6 +246,14 @@ pub fn run(ctx: &Ctx) -> Rep {
                     }
                 }
             }
+            // field-structured values: repeated and cancelling bytes / words / nibbles (drive::field_structured_u64)
+            let structured = drive::field_structured_u64(seed);
+            st.rep.add("field_structured_values", structured.len() as u64);
+            if ctx.smoke() {
+                v.extend(structured.iter().step_by(997));
+            } else {
+                v.extend(structured);
+            }
             for &b in &v {
                 check_set(st, b);
             }
@@ -275,6 +284,41 @@ pub fn run(ctx: &Ctx) -> Rep {
     });
     let (r2, x2) = merge_states(s2);
     rep.merge(r2);
+
+    // ---- bulk uniform values ------------------------------------------------------------------------------
+    // The conversion is a few nanoseconds, so sheer volume is affordable: uniformly distributed 64-bit values
+    // (a counter-based generator, no bookkeeping per value), all of which must convert to blank unless they
+    // happen to be a single card bit. This is what reaches a conversion that is wrong on a *pseudo-random*
+    // sparse set - e.g. a perfect-hash lookup that compares only part of the hash - for which no structured
+    // family exists: a set of density d is hit with probability 1 - exp(-d * N).
+    {
+        let n_bulk: u64 = ctx.pick(20_000, 40_000_000_000, 600_000_000_000);
+        let parts = 1024u64;
+        let sb = par_run(ctx, parts as usize, mk, |st, pi| {
+            let per = n_bulk / parts;
+            let mut x = drive::mix(seed ^ 0xC14_B000 ^ ((pi as u64) << 40) ^ if ctx.leg == "checked" { 0x5EED_0000_0000 } else { 0 }); // the two build profiles draw different values;
+            let mut bad: Vec<u64> = Vec::new();
+            for _ in 0..per {
+                // SplitMix64 step
+                x = x.wrapping_add(0x9E37_79B9_7F4A_7C15);
+                let mut z = x;
+                z = (z ^ (z >> 30)).wrapping_mul(0xBF58_476D_1CE4_E5B9);
+                z = (z ^ (z >> 27)).wrapping_mul(0x94D0_49BB_1331_11EB);
+                z ^= z >> 31;
+                if <CKCNumber as PokerCard>::from_binary_card(z) != 0 && bad.len() < 4 {
+                    bad.push(z);
+                }
+            }
+            st.rep.evaluations += per;
+            st.x.bulk += per;
+            for b in bad {
+                check_set(st, b); // decides (a single card bit is a card) and reports
+            }
+        });
+        let (rb, xb) = merge_states(sb);
+        rep.merge(rb);
+        rep.add("bulk_uniform_64_bit_values", xb.iter().map(|x| x.bulk).sum());
+    }
 
     let mut acc = mk();
     for x in x1.into_iter().chain(x2) {
